@@ -56,7 +56,8 @@ def handle (op : String) (args : List String) (impl : String) : String :=
       | .ok p0 =>
         let sig : Header := match variant with
           | "clearsig" => RpmVerif.Bld.signatureHeader [] (some ((hexOfBytes (Hash.sha256L (writeHeader p0.md.header))).toUTF8.toList))
-          | _ => ⟨0, 0, [], []⟩
+          | "clear" => p0.md.signature.clear     -- `Header::clear` (Model/Header.lean; C16.offsets_cleared)
+          | _ => Header.empty                    -- `Header::new_empty` (C16.offsets_new_empty)
         let p : Package := ⟨⟨p0.md.lead, sig, p0.md.header⟩, p0.content⟩
         let w := writePackage p
         let o := offsets p.md
